@@ -175,6 +175,14 @@ def run_case(case, ctx):
                     elif k == "save":
                         end, to_path = o[1], o[2]
                         exp = "".join(T(m) + end for m in model).encode("utf-8")
+                        if len(model) % 3 == 1:
+                            # a save that cannot be written (no such directory) fails cleanly: it raises, and the next save is
+                            # not affected by it
+                            try:
+                                f.save(sc.path("no-such-directory/out.txt"), end)
+                                fail("save/unwritable-path-accepted", "save() into a missing directory did not raise")
+                            except OSError:
+                                ctx.label("failed-save-before-save")
                         if to_path:
                             out = sc.path("out.txt")
                             f.save(out, end)
